@@ -259,7 +259,7 @@ def rule_block(ctx, repo):
         return
     mg_all = [(canon_guard(n.test, repo, fi.module), n) for n in ast.walk(mk[0]) if isinstance(n, ast.If) and n is not mk[0]]
     for g, n in mg_all:
-        if id(n) not in raising_ids and not any(isinstance(x, ast.If) for b_ in n.body for x in ast.walk(b_)) and not any(isinstance(x, (ast.Assign, ast.AugAssign, ast.Call)) for b_ in n.body + n.orelse for x in ast.walk(b_)):
+        if id(n) not in raising_ids and 'len(commit_script)' not in g and not any(isinstance(x, ast.If) for b_ in n.body for x in ast.walk(b_)) and not any(isinstance(x, (ast.Assign, ast.AugAssign, ast.Call)) for b_ in n.body + n.orelse for x in ast.walk(b_)):
             r.violated('refuses:%s' % g[:40], common.site_of(fi, n), 'CheckBlock tests `%s` in the merkle section and then refuses nothing (the branch does not raise)' % g, sure=True)
     # section guards (which contain further tests) and raising guards
     mg = [(g, n) for g, n in mg_all if id(n) in raising_ids or any(isinstance(x, ast.If) for b_ in n.body for x in ast.walk(b_))]
